@@ -2,9 +2,13 @@
 PROPS["C01"] = dict(
     level="exploration",
     level_text="The whole daemon runs in virtual time (testing/synctest) against 3-5 scripted speakers of mixed kinds; PRNG histories of 40-160 events "
-               "(announce, replace, withdraw, duplicate withdraw, session flap, re-establish, API add/delete, slow reader on/off, clock ticks) are "
+               "(announce, replace, withdraw, duplicate withdraw, session flap, re-establish, API add/delete, slow reader on/off, clock ticks, wire "
+               "ROUTE-REFRESH, peer delete / re-add, concurrent bursts from several speakers, a session closed while a burst is propagated to it; "
+               "optional export policy; schedules steered by the Gosched-only yield hook at the recv/send/bucket/walk/target points) are "
                "executed and, at exact quiescence, everything each peer has been sent (decoded from the bytes written to its connection and applied in "
-               "order) is compared with a fresh ADJ_OUT evaluation. Exploration: histories x interleavings are sampled, not enumerated.",
+               "order) is compared with a fresh ADJ_OUT evaluation; for ADD-PATH peers with the fresh set of eligible paths (held paths must be "
+               "eligible under the same stable id with the same attributes, per prefix exactly min(send-max, eligible) held). "
+               "7200 histories in the quick tier, 72000 in thorough. Exploration: histories x interleavings are sampled, not enumerated.",
     level_note="Trusts gobgp's own UPDATE parser on the receiving side and ListPath(ADJ_OUT) (fresh filterpath/export evaluation over the current table) "
                "as the reference of what should be advertised; that the Loc-RIB itself is right is C02/C03.",
     technique="runtime monitor: per-peer accumulated wire view vs fresh ADJ_OUT evaluation at exact quiescence (synctest.Wait) over PRNG event histories in virtual time",
@@ -12,7 +16,7 @@ PROPS["C01"] = dict(
          "a comparison is non-trivial iff >=1 UPDATE reached that peer since the previous comparison; distinct by (peer kind, add-path, event-kind multiset hash)",
     assumptions=["net.Pipe transports (no kernel buffering): back-pressure and coalescing are more frequent than on TCP, never less",
                  "hold time 0 on all sessions (no keepalives)"],
-    must_count=["quiescent_comparisons", "comparisons_after_updates", "addpath_comparisons", "ev_announce", "ev_withdraw", "ev_flap", "ev_reestablish", "ev_burst", "ev_route-refresh", "ev_delete-peer", "ev_add-peer", "histories_with_yield_hook", "histories_with_export_policy", "yield_points_passed"],
+    must_count=["quiescent_comparisons", "comparisons_after_updates", "addpath_comparisons", "ev_announce", "ev_withdraw", "ev_flap", "ev_reestablish", "ev_burst", "ev_flap-during-burst", "ev_route-refresh", "ev_delete-peer", "ev_add-peer", "histories_with_yield_hook", "histories_with_export_policy", "yield_points_passed"],
     min_nontrivial=20,
     units=[dict(name="sim", harness="t_server", files=["sim_", "c01_"], run="TestVerifC01",
                 shards=dict(quick=16, thorough=16), timeout_s=dict(quick=1800, thorough=10800))],
